@@ -259,8 +259,6 @@ def h_compose(sx, cfg):
         one = df.FieldRotator(f)
         one.rotate("from_matrix", _fm(_matmul(Q2, Q1)), n=newn)
         ref = one.field
-        wrong = df.FieldRotator(f)
-        wrong.rotate("from_matrix", _fm(_matmul(Q1, Q2)), n=newn)
         fr.clear_rotation()
         cleared = fr.field
     sx.check("intermediate-is-a-field", mid is not two and mid.nvdim == f.nvdim)
@@ -274,7 +272,16 @@ def h_compose(sx, cfg):
     sx.check("clear-restores-original", cleared is f)
     sx.check("original-untouched", sx.eq(f.array, arr, scale=0.0))
     if not sx.sym and cfg.get("noncommuting"):
-        sx.check("order-matters-witness", not (np.shape(wrong.field.array) == np.shape(two.array) and np.allclose(wrong.field.array, two.array)))
+        # sanity witness that the two orders differ at all (on fixed non-trivial data: a path witness may be the zero field)
+        rng = np.random.default_rng(11)
+        f2 = df.Field(mesh, nvdim=f.nvdim, value=rng.normal(size=np.shape(f.array)))
+        with _env(sx):
+            ab = df.FieldRotator(f2)
+            ab.rotate("from_matrix", _fm(Q1), n=newn)
+            ab.rotate("from_matrix", _fm(Q2), n=newn)
+            ba = df.FieldRotator(f2)
+            ba.rotate("from_matrix", _fm(_matmul(Q1, Q2)), n=newn)
+        sx.check("order-matters-witness", not (np.shape(ba.field.array) == np.shape(ab.field.array) and np.allclose(ba.field.array, ab.field.array)))
 
 
 def h_region(sx, cfg):
